@@ -99,6 +99,12 @@ Theorem c04_x_ranks_contiguous : forall c dirs l ann, Forall (sol_wf xq xltb xze
             (forall j, j < m -> filter (fun a => Nat.eqb (a_rank a) j) ann <> []).
 Proof. exact x_ranks_contiguous. Qed.
 
+(* nondominated_sort never fails (the round limit len(population) is never hit and crowding_distance does not
+   raise) on well-formed populations with finite objective values *)
+Theorem c04_nd_sort_total : forall c dirs l, Forall (sol_wf xq xltb xzero dirs) l -> sid_inj l ->
+  (forall x, In x l -> finite_objs x) -> exists ann, x_nd_sort c dirs l = Some ann.
+Proof. exact x_nd_sort_total. Qed.
+
 (* the crowding attribute of a member is what crowding_distance computed for its own front
    (= the members of equal rank), so Part 3 applies to it *)
 Theorem c04_x_crowd_front : forall c dirs l ann, Forall (sol_wf xq xltb xzero dirs) l -> sid_inj l ->
@@ -117,6 +123,11 @@ Proof. exact x_crowd_nonneg. Qed.
 (* ------------------------------------------------------------------ Part 3 *)
 (* [crowding nobjs front = Some st]: st maps identities to the crowding_distance written.
    [unique front] = first member of every distinct objective vector. *)
+
+(* crowding_distance does not raise on finite objective vectors of sufficient length *)
+Theorem c04_crowding_total : forall nobjs front,
+  (forall x, In x front -> finite_objs x /\ nobjs <= length (s_objs x)) -> exists st, crowding nobjs front = Some st.
+Proof. exact crowding_total. Qed.
 
 (* >= 3 distinct vectors: for every objective the first and the last of the stable order get +inf *)
 Theorem c04_crowding_extremes : forall nobjs front st, sid_inj front -> crowding nobjs front = Some st ->
@@ -282,6 +293,10 @@ Proof. exact prune_NoDup. Qed.
 Theorem c04_prune_rank_mono : forall nobjs l size out, nondominated_prune nobjs l size = Some out ->
   forall x y, In x out -> In y l -> ~ In y out -> a_rank x <= a_rank y.
 Proof. exact prune_rank_mono. Qed.
+
+(* the pruning loop terminates (fuel = size of the cut front suffices) and nothing raises *)
+Theorem c04_prune_total : forall nobjs l size, prunable nobjs l -> exists out, nondominated_prune nobjs l size = Some out.
+Proof. exact prune_total. Qed.
 
 Theorem c04_prune_zero : forall nobjs l, nondominated_prune nobjs l 0 = Some [].
 Proof. exact prune_zero. Qed.
